@@ -208,6 +208,30 @@ void Groups::evalArguments( int argc, char* argv[]) noexcept( false)
       if (is_value && (last_handler != nullptr))
          result = last_handler->evalSingleArgument( ai, alp.end());
 
+      // a long argument that is exactly the key of an argument of one handler
+      // belongs to that handler, even if a handler that was created earlier
+      // would accept it as abbreviation of one of its own arguments
+      if (ai->mElementType == detail::ArgListElement::Type::stringArg)
+      {
+         const detail::ArgumentKey  exact_key( ai->mArgString);
+
+         for (auto & stored_group : mArgGroups)
+         {
+            if (stored_group.mpArgHandler->mArguments.isExactKey( exact_key)
+                || stored_group.mpArgHandler->mSubGroupArgs.isExactKey( exact_key))
+            {
+               result = stored_group.mpArgHandler->evalSingleArgument( ai,
+                  alp.end());
+               if (result != Handler::ArgResult::unknown)
+               {
+                  last_handler = stored_group.mpArgHandler.get();
+                  usage_printed |= last_handler->usagePrinted();
+               } // end if
+               break;   // for
+            } // end if
+         } // end for
+      } // end if
+
       for (auto & stored_group : mArgGroups)
       {
          if (result != Handler::ArgResult::unknown)
